@@ -6,6 +6,7 @@ import BridgeVerif.Translated.ScoreL4
 import BridgeVerif.Translated.ScoreL5
 import BridgeVerif.Translated.ScoreL6
 import BridgeVerif.Model.Score
+import BridgeVerif.Lemmas.MiniPyFuel
 /-!
 # score.py AS TRANSLATED satisfies the duplicate scoring law  (C07)
 
@@ -20,13 +21,12 @@ open Bridge.Py Bridge.Generated.PyCore
 
 def status (x xx : Bool) : Dbl := if xx then .xx else if x then .x else .none
 
-/-- THE TRANSLATED `calc_bid_score` is the duplicate scoring law on its whole domain
-(35 bids × doubled / redoubled flags × vulnerability × 0..13 tricks) -/
-theorem calc_bid_score_translated_is_law (b : Fin 35) (x xx vul : Bool) (t : Nat) (ht : t ≤ 13) :
-    (fn n_calc_bid_score [encBid b, .bool x, .bool xx, .bool vul, .int t]).int?
+/-- with 80 levels of fuel, on the whole domain -/
+theorem calc_bid_score_at_80 (b : Fin 35) (x xx vul : Bool) (t : Nat) (ht : t ≤ 13) :
+    (cbsAt 80 [encBid b, .bool x, .bool xx, .bool vul, .int t]).int?
       = some (dupScore (bidLevel b) (bidDenom b) (status x xx) vul t) := by
   have key : ∀ l' : Fin 7, ∀ k' : Fin 5, ∀ t' : Fin 14,
-      (fn n_calc_bid_score [encBid ⟨5 * l'.val + k'.val, by omega⟩, .bool x, .bool xx, .bool vul, .int t'.val]).int?
+      (cbsAt 80 [encBid ⟨5 * l'.val + k'.val, by omega⟩, .bool x, .bool xx, .bool vul, .int t'.val]).int?
       = some (dupScore (bidLevel ⟨5 * l'.val + k'.val, by omega⟩) (bidDenom ⟨5 * l'.val + k'.val, by omega⟩)
           (status x xx) vul t'.val) := by
     intro l' k' t'
@@ -42,6 +42,31 @@ theorem calc_bid_score_translated_is_law (b : Fin 35) (x xx vul : Bool) (t : Nat
   have hb : (⟨5 * (b.val / 5) + b.val % 5, by omega⟩ : Fin 35) = b := by ext; simp only []; omega
   simp only [hb] at h
   exact h
+
+/-- … hence with ANY fuel from 80 up the call returns the law's value (`mkRec_mono`): this is the form used where
+`calc_bid_score` is called from inside another translated function -/
+theorem calc_bid_score_any_fuel (b : Fin 35) (x xx vul : Bool) (t : Nat) (ht : t ≤ 13) (f : Nat) (hf : 80 ≤ f) :
+    ∃ self', callFn PB f f_calc_bid_score [encBid b, .bool x, .bool xx, .bool vul, .int t]
+      = .ok (.int (dupScore (bidLevel b) (bidDenom b) (status x xx) vul t), self') := by
+  have h := calc_bid_score_at_80 b x xx vul t ht
+  unfold cbsAt at h
+  cases hr : callFn PB 80 f_calc_bid_score [encBid b, .bool x, .bool xx, .bool vul, .int t] with
+  | error e => rw [hr] at h; simp [Except.map, R.int?] at h
+  | ok p =>
+    obtain ⟨v, s'⟩ := p
+    rw [hr] at h
+    cases v <;> simp [Except.map, R.int?] at h
+    subst h
+    exact ⟨s', callFn_fuel_mono PB hf _ _ _ hr (by simp)⟩
+
+/-- THE TRANSLATED `calc_bid_score` is the duplicate scoring law on its whole domain
+(35 bids × doubled / redoubled flags × vulnerability × 0..13 tricks) -/
+theorem calc_bid_score_translated_is_law (b : Fin 35) (x xx vul : Bool) (t : Nat) (ht : t ≤ 13) :
+    (fn n_calc_bid_score [encBid b, .bool x, .bool xx, .bool vul, .int t]).int?
+      = some (dupScore (bidLevel b) (bidDenom b) (status x xx) vul t) := by
+  obtain ⟨s', h⟩ := calc_bid_score_any_fuel b x xx vul t ht topFuel (by decide)
+  have hf : findFunc PB.funcs n_calc_bid_score = some f_calc_bid_score := rfl
+  simp only [fn, Program.runFn, hf, h, Except.map, R.int?]
 
 /-- the translated function and the hand-written model of it agree on the whole domain -/
 theorem calc_bid_score_translated_is_model (b : Fin 35) (x xx vul : Bool) (t : Nat) (ht : t ≤ 13) :
